@@ -71,6 +71,7 @@ type S struct {
 	downFrom, downTo time.Duration
 	realPeer bool
 	downs    [][2]time.Duration // further windows in which the endpoint was not reachable
+	think    map[string]time.Duration // payload -> time the server took before answering
 }
 
 type replyRec struct {
@@ -93,11 +94,15 @@ func ms(n int) time.Duration { return time.Duration(n) * time.Millisecond }
 func (s *S) Run(c *scen.Ctx) {
 	s.plans = map[int]*connPlan{}
 	s.replies = map[string]replyRec{}
+	s.think = map[string]time.Duration{}
 	s.downFrom, s.downTo = -1, -1
 	simnet.Cfg.Fragment = simrt.Draw(2, "c11.frag") == 1
 	simnet.Cfg.Delay = simrt.Draw(3, "c11.delay") == 2
 	s.timeout = 3000
-	comm := world.NewClient(world.ClientOpts{InvokeTimeoutMs: s.timeout})
+	// the client's own idle time-out: a connection with a request waiting for its answer is in use
+	idle := []time.Duration{0, 0, time.Second, 2 * time.Second}[simrt.Draw(4, "c11.clientidle")]
+	c.Describe("client_idle_timeout", idle.String())
+	comm := world.NewClient(world.ClientOpts{InvokeTimeoutMs: s.timeout, IdleTimeout: idle})
 	if s.realPeer {
 		s.runRealPeer(c)
 	} else {
@@ -223,6 +228,24 @@ func (s *S) closeConn(sc *world.SrvConn, p *connPlan) {
 }
 
 func (s *S) onRequest(c *scen.Ctx, sc *world.SrvConn, req *refcodec.Request) {
+	if simrt.Draw(6, "c11.slowreply") == 5 {
+		// a slow but healthy server: this answer takes a while (less than the call's time-out);
+		// other requests are served meanwhile
+		d := ms(1200 + simrt.Draw(1300, "c11.think"))
+		c.Count("fault.server_answers_slowly", 1)
+		s.mu.Lock()
+		s.think[string(req.Buffer)] = d
+		s.mu.Unlock()
+		simrt.Go(func() {
+			simrt.Sleep(d)
+			s.answer(c, sc, req)
+		})
+		return
+	}
+	s.answer(c, sc, req)
+}
+
+func (s *S) answer(c *scen.Ctx, sc *world.SrvConn, req *refcodec.Request) {
 	s.mu.Lock()
 	p := s.plans[sc.ID]
 	s.mu.Unlock()
@@ -428,7 +451,7 @@ func (s *S) Check(c *scen.Ctx, res *simrt.Result) {
 		if !bytes.Equal(cl.rspBuf, cl.payload) {
 			c.Fail("C11", "wrong-response", "TarsInvoke", "call %d/%d got payload %q", cl.caller, cl.k, cl.rspBuf)
 		}
-		if dur > ms(s.timeout)/2 {
+		if dur-s.think[string(cl.payload)] > ms(s.timeout)/2 {
 			c.Fail("C11", "call-slow", "TarsInvoke", "call %d/%d issued at %v %s took %v (time-out %dms): it waited instead of using a working connection", cl.caller, cl.k, cl.t0, state, dur, s.timeout)
 		}
 	}
